@@ -105,6 +105,9 @@ func generatedLevels(method string) (string, M) {
 var constraints = []constraint{
 	{name: "unknownMethod", expect: 400, names: allMethodNames, apply: func(q M) { q["preferenceFunction"] = "noSuchMethod" }},
 	{name: "unknownBias", expect: 400, names: allBiasNames, apply: func(q M) { q["biases"] = oneBias("noSuchBias", M{}) }},
+	{name: "unknownMethodPadded", expect: 400, names: allMethodNames, apply: func(q M) { q["preferenceFunction"] = q["preferenceFunction"].(string) + " " }},
+	{name: "unknownMethodLeadingBlank", expect: 400, names: allMethodNames, apply: func(q M) { q["preferenceFunction"] = " " + q["preferenceFunction"].(string) }},
+	{name: "unknownBiasPadded", expect: 400, names: allBiasNames, apply: func(q M) { q["biases"] = oneBias("fatigue ", M{}) }},
 	{name: "unknownOrdering", expect: 400, apply: func(q M) { q["biases"] = oneBias("criteriaOmission", M{"ratio": 0.34, "ordering": "noSuchOrdering"}) }},
 	{name: "unknownOrderingReversal", expect: 400, apply: func(q M) { q["biases"] = oneBias("preferenceReversal", M{"ratio": 0.34, "ordering": "noSuchOrdering"}) }},
 	{name: "unknownFatigueFunction", expect: 400, apply: func(q M) {
